@@ -574,7 +574,7 @@ Goals(pre, ev, a, r) ==
          G(\E k \in rel : NIsZero(pre.recs[k].actual), "eb_release_fully_slashed") \cup
          G(\E k \in rel : KIND[pre.recs[k].a] = "nat", "eb_release_native") \cup
          G(\E k \in DOMAIN pre.recs : k \in DOMAIN post.recs /\ post.recs[k].complete # pre.recs[k].complete, "eb_requeue_held") \cup
-         G(\E k \in rel : pre.recs[k].complete < pre.h, "eb_release_after_requeue")
+         G(\E k \in rel : pre.recs[k].complete > pre.recs[k].start + UNBOND, "eb_release_after_requeue")
     [] ev = "Slash" ->
          LET pr == SlashProportion(pre, a) IN
          G(ok /\ NIsPos(pr.p) /\ NLt(pr.p, PREC), "slash_partial") \cup
